@@ -496,7 +496,10 @@ func cmdCheck(argv []string) int {
 			once[k] += v
 		}
 		for k, v := range ex.Inconclusive {
-			if k == "wall-clock budget exhausted" || k == "path: run stopped" {
+			if k == "path: run stopped" && ex.Inconclusive["wall-clock budget exhausted"] == 0 && len(ex.Violations) > 0 {
+				continue // stopped after the first counterexamples: the run ends with a violation anyway
+			}
+			if k == "wall-clock budget exhausted" || (k == "path: run stopped" && ex.Inconclusive["wall-clock budget exhausted"] > 0) {
 				// a resource limit that depends on machine load, not on the code: the
 				// instance is reported as covered up to the paths explored (reduced bound)
 				reduced[fmt.Sprintf("%s%v", r.h.Name, r.args)] = int(ex.Paths)
